@@ -1,6 +1,6 @@
 use crate::bin_archive::BinArchive;
 use crate::bin_streams::BinArchiveReader;
-use crate::{ArcError, Endian};
+use crate::{ArcError, ArchiveError, Endian};
 use std::collections::HashMap;
 
 type Result<T> = std::result::Result<T, ArcError>;
@@ -31,7 +31,10 @@ pub fn from_bytes(bytes: &[u8]) -> Result<HashMap<String, Vec<u8>>> {
         let name = reader.read_string()?.ok_or(ArcError::MissingName)?;
         let index = reader.read_u32()?;
         let size = reader.read_u32()?;
-        let address = reader.read_u32()? + header_padding;
+        let offset = reader.read_u32()?;
+        let address = offset
+            .checked_add(header_padding)
+            .ok_or(ArchiveError::OutOfBoundsAddress(offset as usize, archive.size()))?;
         entries.push(ArcEntry {
             name,
             index,
